@@ -49,7 +49,7 @@ pub fn spi_buf_len(rng: &mut Rng, bits: u8) -> usize {
         3 => 16,
         4 => 64,
         5 => 512,
-        6 => 4096,
+        6 => *rng.pick(&[4096usize, 4098, 16384, 131072, 131074, 307200]),
         _ => rng.range(n as i64, 200) as usize,
     }
 }
@@ -67,6 +67,23 @@ pub fn gen_window(rng: &mut Rng, fw: u16, fh: u16, max_area: u64) -> (u16, u16, 
             ox = 0;
             oy = 0;
         }
+        6 => {
+            // sizes of real-world panels built on these controllers
+            const COMMON: [(u32, u32); 14] = [(80, 160), (128, 128), (128, 160), (135, 240), (240, 240), (170, 320), (172, 320), (240, 280), (240, 320), (320, 240), (320, 480), (240, 135), (160, 80), (130, 130)];
+            let (cw, ch) = *rng.pick(&COMMON);
+            w = cw.min(fw32);
+            h = ch.min(fh32);
+            ox = match rng.below(3) {
+                0 => 0,
+                1 => (fw32 - w) / 2,
+                _ => fw32 - w,
+            };
+            oy = match rng.below(3) {
+                0 => 0,
+                1 => (fh32 - h) / 2,
+                _ => fh32 - h,
+            };
+        }
         1 => {
             // 1x1 at a corner
             w = 1;
@@ -78,6 +95,13 @@ pub fn gen_window(rng: &mut Rng, fw: u16, fh: u16, max_area: u64) -> (u16, u16, 
             // touching one or two framebuffer edges at the far side
             w = rng.range(1, fw32.min(40) as i64) as u32;
             h = rng.range(1, fh32.min(40) as i64) as u32;
+            ox = if rng.bool() { fw32 - w } else { rng.range(0, (fw32 - w) as i64) as u32 };
+            oy = if rng.bool() { fh32 - h } else { rng.range(0, (fh32 - h) as i64) as u32 };
+        }
+        5 if max_area > 1 << 20 => {
+            // large: several hundred pixels in each direction (or everything the framebuffer has)
+            w = rng.range((fw32.min(200)) as i64, fw32.min(1200) as i64) as u32;
+            h = rng.range((fh32.min(200)) as i64, fh32.min(1200) as i64) as u32;
             ox = if rng.bool() { fw32 - w } else { rng.range(0, (fw32 - w) as i64) as u32 };
             oy = if rng.bool() { fh32 - h } else { rng.range(0, (fh32 - h) as i64) as u32 };
         }
@@ -185,10 +209,36 @@ pub fn hostile_coord(rng: &mut Rng, n: i64) -> i32 {
 }
 
 pub fn inb_coord(rng: &mut Rng, n: i64) -> i32 {
-    match rng.below(6) {
+    match rng.below(8) {
         0 => 0,
         1 => (n - 1) as i32,
+        2 => {
+            // "magic" interior values: powers of two and their neighbours, capacities
+            let m = *rng.pick(&[49i64, 50, 51, 99, 100, 127, 128, 255, 256, 257, 511, 512, 1023, 1024, 4095, 4096, 32767, 32768]);
+            if m < n {
+                m as i32
+            } else {
+                rng.range(0, n - 1) as i32
+            }
+        }
         _ => rng.range(0, n - 1) as i32,
+    }
+}
+
+/// A colour tag for solid fills: now and then one whose wire bytes have a special relation
+/// (all bytes equal, first = last, zero, all ones).
+pub fn solid_tag(rng: &mut Rng, tags: &mut TagGen, bits: u8) -> u32 {
+    if rng.chance(1, 3) {
+        if bits == 16 {
+            let b = rng.next() as u32 & 0xFF;
+            *rng.pick(&[0u32, 0xFFFF, b << 8 | b, 0x00FF, 0xFF00, 0x0100, 0x8000, 0x0001])
+        } else {
+            let c = rng.next() as u32 & 0x3F;
+            let d = rng.next() as u32 & 0x3F;
+            *rng.pick(&[0u32, 0x3FFFF, c << 12 | c << 6 | c, c << 12 | d << 6 | c, c << 12 | c << 6 | d, d << 12 | c << 6 | c, 0x3F000, 0x00FC0, 0x0003F])
+        }
+    } else {
+        tags.one()
     }
 }
 
@@ -352,7 +402,7 @@ pub fn gen_pixel_stream(
             break;
         }
         let room = max_pixels - v.len();
-        match rng.below(11) {
+        match rng.below(12) {
             0 | 1 => {
                 // one horizontal run, length around the capacities
                 let lens = [1, 2, cap_row - 1, cap_row, cap_row + 1, 2 * cap_row - 1, 2 * cap_row, 2 * cap_row + 1, 3 * cap_row];
@@ -462,6 +512,30 @@ pub fn gen_pixel_stream(
                     }
                 }
             }
+            10 => {
+                // continuation that is 256 columns / rows away from the adjacent position
+                // (an adjacency test done in a narrow integer type would merge it)
+                let len = rng.range(1, 12.min(lw));
+                let x0 = rng.range(0, lw - len);
+                let y = rng.range(0, lh - 1);
+                for i in 0..len {
+                    v.push(((x0 + i) as i32, y as i32, tags.one()));
+                }
+                let nx = x0 + len + 256 * rng.range(1, 2);
+                if nx < lw {
+                    for i in 0..rng.range(1, 4) {
+                        if nx + i < lw {
+                            v.push(((nx + i) as i32, y as i32, tags.one()));
+                        }
+                    }
+                }
+                let ny = y + 1 + 256;
+                if ny < lh {
+                    for i in 0..len {
+                        v.push(((x0 + i) as i32, ny as i32, tags.one()));
+                    }
+                }
+            }
             _ => {
                 // uniform scatter
                 for _ in 0..rng.range(1, 30) {
@@ -566,20 +640,24 @@ pub fn gen_draw_op(rng: &mut Rng, lw: i64, lh: i64, bits: u8, tags: &mut TagGen,
                 };
                 // an infinite or huge stream over a rectangle whose skipped part is huge would
                 // take forever even in a correct driver: bound the points before the last visible one
+                // the colour stream skips in O(1), so only the visible part costs time; a stream
+                // over a gigantic rectangle ends soon after the last visible point, so that a
+                // driver consuming every clipped colour one by one stays affordable
                 let bound = last_visible_index(&r, lw, lh).unwrap_or(0);
-                if bound > if crate::small() { 400 } else { 1 << 22 } {
+                if crate::small() && bound > 400 {
                     continue;
                 }
                 let len = if area > (1 << 24) && len.map(|l| l > bound + 8).unwrap_or(true) { Some(bound + 1 + rng.below(8)) } else { len };
                 let n = len.unwrap_or(area).min(area);
-                return vec![Op::FillContiguous { rect: r, colors: Stream::Seq { start: tags.run(n), step: 1, len } }];
+                let colors = if rng.chance(1, 3) { Stream::Hash { seed: tags.one(), len } } else { Stream::Seq { start: tags.run(n), step: 1, len } };
+                return vec![Op::FillContiguous { rect: r, colors }];
             }
             7 | 8 => {
                 let r = gen_rect(rng, lw, lh, o.mode, o.max_px);
-                return vec![Op::FillSolid { rect: r, c: tags.one() }];
+                return vec![Op::FillSolid { rect: r, c: solid_tag(rng, tags, bits) }];
             }
             9 if o.allow_clear && full <= o.max_px => {
-                return vec![Op::Clear { c: tags.one() }];
+                return vec![Op::Clear { c: solid_tag(rng, tags, bits) }];
             }
             10 => {
                 // an embedded-graphics drawable, expanded into its DrawTarget calls
